@@ -522,6 +522,9 @@ func (w *World) proofFor(counter string, key []byte, otherKey []byte, ph int, mo
 		q = d.App.LastBlockHeight() + 1
 	}
 	switch mode {
+	case "rev0":
+		// the genuine proof, stated for the same block number in revision 0 (a height the client never verified)
+		height = clienttypes.NewHeight(0, uint64(real))
 	case "empty":
 		return nil, height
 	case "otherkey":
